@@ -3,7 +3,7 @@ import TLVerif.Codec.TL2
 /-! TL2 ops.
 * `codec.x2 <sid> <ty> <tlname> <boxed01> <tl1hex>`: read TL1, answer `ok w2=<TL2 bytes> w1b=<TL1 boxed>`
 * `codec.r2 <sid> <ty> <tlname> <tl2hex>`: read TL2, answer `ok <consumed> w2=<re-written TL2> w1b=<TL1 boxed of the result | n/a>`
-* `codec.g4 <sid> <ty> <tlname> <boxed01> <tl1hex>`: model only, evaluates the guard `noNegZero` of C04
+* `codec.g4 <sid> <ty> <tlname> <boxed01> <tl1hex>`: model only, evaluates `noNegZero` (former guard of C04; annotates failures)
 Types generated without TL2 answer `n/a`. -/
 namespace TLVerif.Codec
 open TLVerif.Util TLVerif.Prim
@@ -70,7 +70,7 @@ def handleTL2 : OpHandler := fun st op args =>
         some s!"ok {bs.length - rest.length} w2={outW2 (writeTop d fuel ty v)} w1b={w1b}"
     | _, _, _ => some "bad-op"
   | "g4", [sid, ty, _name, boxed, h] =>
-    -- guard of C04 (model only): does the value decoded from these TL1 bytes avoid `-0.0` in "empty-test" positions?
+    -- former guard of C04 (model only): does the value decoded from these TL1 bytes avoid `-0.0` in "empty-test" positions?
     match st.lookup sid, ty.toNat?, bytesOfHex h with
     | some sc, some ty, some bs =>
       let d := sc.desc
